@@ -1,5 +1,6 @@
 import Rain.Integrity
 import Rain.Lemmas.Integrity
+import Rain.Props.C12
 /-
 C15 — "Corrupted files are detected, never served as data": what the format's integrity evidence
 guarantees, as theorems, and what it does NOT guarantee, as kernel-checked counterexamples.
